@@ -64,6 +64,12 @@ def gen_cases(chk):
         rng.shuffle(seq)
         cases.append("huff 10000 " + hexl(seq))
         cases.append("huff 10000 " + hexl([base + i for i in range(k)]))
+    # the same coder with big-endian *input files* declared (dataEndianType = BIG_ENDIAN_DATA): the tree's byte-order marker is the machine's
+    for k in (1, 2, 3, 40, 127, 128, 129, 300):
+        base = rng.randrange(1, 60000)
+        seq = [base + i for i in range(k)] + [base + rng.randrange(k) for _ in range(rng.randrange(0, 200))]
+        rng.shuffle(seq)
+        cases.append("huff 10000 %s 1" % hexl(seq))
     big = (32767, 32768, 32769, 65535, 65536, 100000, 131072) if thorough else (32768, 32769)
     for k in big:
         st = 0x40000 if k > 60000 else 0x20000
